@@ -81,6 +81,7 @@ class Sim(object):
         self.log_picks = log_picks
         self._prio = {}
         self._pct_points = None
+        self._same_run = 0
         self.time_jump_p = 0.0
         self.max_jump = 0.05
         self.aborting = False
@@ -206,8 +207,11 @@ class Sim(object):
                 k = st.get('d', 3)
                 est = st.get('est', 2000)
                 self._pct_points = set(rng.randrange(1, est) for _ in range(k))
-            if self.steps in self._pct_points and self.last is not None:
+            if self.last is not None and (self.steps in self._pct_points or self._same_run > 150):
+                # change point (or fairness: a thread spinning at top priority must not starve the rest,
+                # a real scheduler would run the others in parallel)
                 self._prio[self.last.name] = -self.steps
+                self._same_run = 0
             best, bi = None, 0
             for i in range(n):
                 nm = cands[i].name if i < len(cands) else '~env'
@@ -282,6 +286,10 @@ class Sim(object):
                 pick = self.choose(n, lambda: self._strategy_pick(cands, n))
             if pick < len(cands):
                 t = cands[pick]
+                if t is self.last and len(cands) > 1:
+                    self._same_run += 1
+                else:
+                    self._same_run = 0
                 if self.log_picks:
                     self.rec('pick', t.name)
                 self.last = t
